@@ -141,6 +141,8 @@ class GatedNet(FakeNet):
             finally:
                 if self.pending.get(key) is fut:
                     del self.pending[key]
+        if how == 'overflow':
+            raise OverflowError('bind(): port must be 0-65535. (fake)')
         if how != 'ok':
             raise ConnectionRefusedError(f'{host}:{port} refused (fake)')
         self._port += 1
@@ -313,3 +315,56 @@ async def start_network(loop, net_fake: GatedNet, settings, server=None):
     from vlib.simloop import settle
     await settle()
     return bus, network, server, srv_task
+
+
+# ------------------------------------------------------------------------------------------------
+# await-site audit (DESIGN.md section 2, "How all schedules becomes all op sequences")
+# ------------------------------------------------------------------------------------------------
+
+class SiteAudit:
+    """After every loop iteration record, for each suspended task, the innermost frame inside
+    aioslsk/network/{connection,network}.py and what it awaits: `file:function>awaited`.
+    The models name every suspension point of the anchored code; a site that is not in the check's known list
+    (e.g. an `await` added in the middle of a critical section) is reported as a correspondence break of kind
+    `granularity`, whether or not a generated schedule happens to exploit it."""
+
+    FILES = ('aioslsk/network/connection.py', 'aioslsk/network/network.py')
+
+    def __init__(self, loop):
+        self.loop = loop
+        self.sites: set = set()
+        orig = loop._run_once
+
+        def run_once():
+            orig()
+            self.scan()
+        loop._run_once = run_once
+
+    def close(self):
+        """Undo the hook (and the loop <-> audit reference cycle)."""
+        try:
+            del self.loop._run_once
+        except AttributeError:
+            pass
+        self.loop = None
+
+    def scan(self):
+        if self.loop is None:
+            return
+        for t in asyncio.all_tasks(self.loop):
+            if t.done():
+                continue
+            co = t.get_coro()
+            site, n = None, 0
+            while co is not None and n < 64:
+                n += 1
+                code = getattr(co, 'cr_code', None) or getattr(co, 'gi_code', None) or getattr(co, 'ag_code', None)
+                nxt = getattr(co, 'cr_await', None) or getattr(co, 'gi_yieldfrom', None) or getattr(co, 'ag_await', None)
+                if code is not None and code.co_filename.replace('\\', '/').endswith(self.FILES):
+                    ncode = (getattr(nxt, 'cr_code', None) or getattr(nxt, 'gi_code', None)
+                             or getattr(nxt, 'ag_code', None)) if nxt is not None else None
+                    awaited = ncode.co_name if ncode is not None else ('future' if nxt is not None else 'start')
+                    site = f"{code.co_filename.replace(chr(92), '/').rsplit('/', 1)[-1]}:{code.co_name}>{awaited}"
+                co = nxt
+            if site is not None:
+                self.sites.add(site)
